@@ -157,8 +157,9 @@ def cases(tier):
         for comps in (1, 2):
             out.append({"part": "seq", "grid": spec, "comps": comps})
     # assemble_matrix_rhs sequences / purity (fluxes of mixed sign)
-    out.append({"part": "asm", "grid": t11, "flux": "signs"})
-    out.append({"part": "asm", "grid": c21, "flux": "signs"})
+    for p in _prefixes(1):
+        out.append({"part": "asm", "grid": t11, "flux": "signs", "prefix": p})
+        out.append({"part": "asm", "grid": c21, "flux": "signs", "prefix": p})
     for spec, coef in ((c22, "pm2"), (dict(c22, pert=[[4, [1, -1]]]), "pm2"), (t22, "pm2"), ({"kind": "C", "n": [3, 2]}, "m1to2"),
                        ({"kind": "C", "n": [3, 3]}, "tern"), (c222, "tern"), (dict(t22, pert=[[4, [-1, 1]]], embed="gen"), "pm2")):
         out.append({"part": "asm", "grid": spec, "flux": "curl", "coef": coef})
@@ -548,7 +549,7 @@ def _run_asm(case, out):
     alt = sum(1 << i for i in range(0, nb, 2))
     if case["flux"] == "signs":
         mag = _magnitudes(nf)
-        fluxes = [(np.array(sv) * mag, False) for sv in U.sign_vectors(nf, nf, [])]
+        fluxes = [(np.array(sv) * mag, False) for sv in U.sign_vectors(nf, nf, case.get("prefix", []))]
         masks = G.all_assignments(nb) if nb <= 4 else [full, 0, alt, full ^ alt]
     else:
         basis = U.curl_basis(g)
